@@ -27,6 +27,8 @@ Sites ==
     S("ProxyAnswers.lookup",    {"idmap"},                   "R", {"snowflakeLock"}, FALSE, "a.lookup"),
     S("Debug",                  {"idmap"},                   "R", {"snowflakeLock"}, FALSE, "none"),
     S("ProxyPolls.counters",    {"counters", "addrsets"},    "W", {"metricsLock"},   FALSE, "m.locked"),
+    S("UpdateCountryStats",     {"geoipdb"},                 "R", {"metricsLock"},   FALSE, "m.locked"),
+    S("LoadGeoipDatabases",     {"geoipdb"},                 "W", IF Fixed THEN {"metricsLock"} ELSE {}, FALSE, "none"),
     S("ClientOffers.counters",  {"counters"},                "W", {"metricsLock"},   FALSE, "m.locked"),
     S("ClientOffers.roundtrip", {"roundtrip"},               "W", IF Fixed THEN {"metricsLock"} ELSE {}, FALSE, "m.locked"),
     S("printMetrics",           {"counters", "addrsets"},    "R", {"metricsLock"},   FALSE, "m.locked"),
